@@ -21,7 +21,7 @@ CLAIMS = {
         'design_ref': 'DESIGN.md section 5, value level / token invariance',
     },
     'C08': {
-        'text': 'C08.wrapper_seq / wrapper_int / wrapper_shape: in the model a subclass instance prints as a call of the class around exactly the document of the underlying built-in value; the model has no input for __repr__/__str__ overrides. On tokens (via C03.output_tokens, so for every layout): C08.seq_wrapper_tokens / dict_wrapper_tokens / int_wrapper_tokens / str_wrapper_tokens — the output's code tokens are the class name, '(', exactly the tokens of the underlying built-in value, ')'. Correspondence on instances of 36 generated subclasses (9 bases x plain / __repr__ / __str__ / both) + IntEnum in 6 nesting contexts x layouts; oracle: eval reconstructs class and value. F6, F7, F17 repaired.',
+        'text': 'C08.wrapper_seq / wrapper_int / wrapper_shape: in the model a subclass instance prints as a call of the class around exactly the document of the underlying built-in value; the model has no input for __repr__/__str__ overrides. On tokens (via C03.output_tokens, so for every layout): C08.seq_wrapper_tokens / dict_wrapper_tokens / int_wrapper_tokens / str_wrapper_tokens — the code tokens of the output are the class name, an opening parenthesis, exactly the tokens of the underlying built-in value, a closing parenthesis. Correspondence on instances of 36 generated subclasses (9 bases x plain / __repr__ / __str__ / both) + IntEnum in 6 nesting contexts x layouts; oracle: eval reconstructs class and value. F6, F7, F17 repaired.',
         'note': 'value-level end-to-end theorem (reader . pformatM = id / token invariance) is not proved yet: the claim rests on C04.sound_pformat (unconditional) for the engine, C02 for the splitter, the listed syntactic lemmas about the printer model, the model=code correspondence on SDoc streams, and the CPython oracle run on every implementation output',
         'technique': 'Lean 4 proof (wrapper lemmas) + differential correspondence + eval oracle',
         'design_ref': 'DESIGN.md section 5, C08',
@@ -45,7 +45,7 @@ CLAIMS = {
         'design_ref': 'DESIGN.md section 5, C11',
     },
     'C17': {
-        'text': 'C17.empty_call, hug_only_exact; on tokens (via C03.output_tokens, for every layout): C17.call_tokens / kw_tokens — name, '(', the positional arguments in order, then name = value for the keyword arguments in the order given, each argument with exactly the tokens it has when printed alone, ')'. Correspondence on objects printed through pretty_call_alt (0-3 positional, 0-2 keyword arguments, nested calls, commented arguments) alone and nested; oracle: eval rebuilds the same callable with arguments in order. Dataclasses / attrs field selection is checked by the oracle section.',
+        'text': 'C17.empty_call, hug_only_exact; on tokens (via C03.output_tokens, for every layout): C17.call_tokens / kw_tokens — the name, the positional arguments in order, then name = value for the keyword arguments in the order given, each argument with exactly the tokens it has when printed alone, between one pair of parentheses. Correspondence on objects printed through pretty_call_alt (0-3 positional, 0-2 keyword arguments, nested calls, commented arguments) alone and nested; oracle: eval rebuilds the same callable with arguments in order. Dataclasses / attrs field selection is checked by the oracle section.',
         'note': 'value-level end-to-end theorem (reader . pformatM = id / token invariance) is not proved yet: the claim rests on C04.sound_pformat (unconditional) for the engine, C02 for the splitter, the listed syntactic lemmas about the printer model, the model=code correspondence on SDoc streams, and the CPython oracle run on every implementation output',
         'technique': 'Lean 4 lemmas + differential correspondence + eval oracle',
         'design_ref': 'DESIGN.md section 5, C17',
